@@ -328,6 +328,12 @@ enum Op {
     /// the dictionary file is written by hand with this exact content (no final newline, CRLF, ...)
     Raw(Scope, String),
     Lint(usize, String),
+    /// didOpen with an explicit language id, also for a document that is open already (Coq: C07Lang.LOpen)
+    Open(usize, String, String),
+    /// didChange, also for a document that is not open (C07Lang.LChange)
+    Change(usize, String),
+    /// didClose
+    Close(usize),
     Restart,
     /// the add runs in a child process that is killed on entering the `when`-th `syscall`
     Crash(Scope, String, String, u32),
@@ -362,6 +368,9 @@ fn hist_json(h: &Hist, origin: &str) -> Value {
             Op::Seed(s, ws) => json!(["seed", scope_json(s), ws]),
             Op::Raw(s, c) => json!(["raw", scope_json(s), c]),
             Op::Lint(u, t) => json!(["lint", u, t]),
+            Op::Open(u, l, t) => json!(["open", u, l, t]),
+            Op::Change(u, t) => json!(["change", u, t]),
+            Op::Close(u) => json!(["close", u]),
             Op::Restart => json!(["restart"]),
             Op::Crash(s, w, sc, n) => json!(["crash", scope_json(s), w, sc, n]),
         })
@@ -379,6 +388,9 @@ fn hist_from(v: &Value) -> Option<Hist> {
             "seed" => ops.push(Op::Seed(scope_from(&a[1]), a[2].as_array()?.iter().filter_map(|x| x.as_str().map(|s| s.to_string())).collect())),
             "raw" => ops.push(Op::Raw(scope_from(&a[1]), a[2].as_str()?.to_string())),
             "lint" => ops.push(Op::Lint(a[1].as_u64()? as usize, a[2].as_str()?.to_string())),
+            "open" => ops.push(Op::Open(a[1].as_u64()? as usize, a[2].as_str()?.to_string(), a[3].as_str()?.to_string())),
+            "change" => ops.push(Op::Change(a[1].as_u64()? as usize, a[2].as_str()?.to_string())),
+            "close" => ops.push(Op::Close(a[1].as_u64()? as usize)),
             "restart" => ops.push(Op::Restart),
             "crash" => ops.push(Op::Crash(scope_from(&a[1]), a[2].as_str()?.to_string(), a[3].as_str()?.to_string(), a[4].as_u64()? as u32)),
             _ => return None,
@@ -529,6 +541,79 @@ fn to_source(lang: &str, prose: &str, idents: &[String]) -> String {
         }
     }
     s
+}
+
+// ---- the language of an open document (Coq: Model/C07Lang.v) ----
+/// char index of an LSP position (inverse of pos_of)
+fn idx_of(src: &[char], line: u64, col: u64) -> Option<usize> {
+    let (mut l, mut c) = (0u64, 0u64);
+    for (i, ch) in src.iter().enumerate() {
+        if l == line && c == col {
+            return Some(i);
+        }
+        if *ch == '\n' {
+            l += 1;
+            c = 0;
+        } else {
+            c += ch.len_utf16() as u64;
+        }
+    }
+    if l == line && c == col { Some(src.len()) } else { None }
+}
+const PLAIN_LANGS: &[&str] = &["plaintext", "text", "mail", "markdown"];
+/// the text as every language in play reads it, with the dictionaries as they are on disk now:
+/// "k P toks" (no identifier handling) / "k S ids ! toks" (tree-sitter language) / "k X" (harper-ls has no parser)
+fn lang_alts(cx: &mut Cx, rep: &mut Report, langs: &[String], text: &str, user: &str, fdict: Option<PathBuf>, chars: &mut BTreeSet<char>, allwords: &mut BTreeSet<String>) -> String {
+    lang_readings(cx, rep, langs, text, user, fdict, chars, allwords).0
+}
+/// ... and per language (identifiers, Word tokens), None = no parser
+fn lang_readings(cx: &mut Cx, rep: &mut Report, langs: &[String], text: &str, user: &str, fdict: Option<PathBuf>, chars: &mut BTreeSet<char>, allwords: &mut BTreeSet<String>) -> (String, Vec<Option<(Vec<String>, Vec<String>)>>) {
+    let mut out: Vec<String> = vec![];
+    let mut readings: Vec<Option<(Vec<String>, Vec<String>)>> = vec![];
+    let du = cx.rt.block_on(load_dict(user)).unwrap_or_else(|_| MutableDictionary::new());
+    let df = match fdict {
+        Some(p) => cx.rt.block_on(load_dict(&p)).unwrap_or_else(|_| MutableDictionary::new()),
+        None => MutableDictionary::new(),
+    };
+    for (k, lang) in langs.iter().enumerate() {
+        if is_src_lang(lang) {
+            let src: Vec<char> = text.chars().collect();
+            let idd = harper_comments::CommentParser::new_from_language_id(lang, MarkdownOptions::default()).and_then(|p| p.create_ident_dict(&src));
+            match idd {
+                Some(d) => {
+                    let ids = words_of(&d);
+                    let now = merged_with(vec![du.clone(), df.clone(), mutable_of(&ids)]);
+                    let toks = tokens_of_doc(&src_document(lang, text, &now), text).words;
+                    for w in ids.iter().chain(toks.iter()) {
+                        chars.extend(w.chars());
+                        allwords.insert(w.clone());
+                        cx.note_id(w);
+                    }
+                    out.push(format!("{k} S {} ! {}", words_field(&ids), words_field(&toks)));
+                    readings.push(Some((ids, toks)));
+                }
+                None => {
+                    // hypothesis lop_ok: whether a language has identifiers is a function of the language id
+                    rep.monitor("lang:create_ident_dict_failed_for_a_tree_sitter_language", 1);
+                    out.push(format!("{k} X"));
+                    readings.push(None);
+                }
+            }
+        } else if PLAIN_LANGS.contains(&lang.as_str()) {
+            let toks = word_tokens(lang, text).words;
+            for w in &toks {
+                chars.extend(w.chars());
+                allwords.insert(w.clone());
+                cx.note_id(w);
+            }
+            out.push(format!("{k} P {}", words_field(&toks)));
+            readings.push(Some((vec![], toks)));
+        } else {
+            out.push(format!("{k} X"));
+            readings.push(None);
+        }
+    }
+    (out.join(" / "), readings)
 }
 
 type Diag = ((u64, u64, u64, u64), String);
@@ -885,6 +970,20 @@ fn run_hist(cx: &mut Cx, rep: &mut Report, h: &Hist, origin: &str) {
     let mut n_adds = 0;
     let mut crashed = false;
     let src_lang = is_src_lang(&h.lang);
+    // histories with explicit didOpen (any language id) / didChange / didClose: every check goes through the language model
+    // (case ops o / g / h / x); the languages in play, by index
+    let lang_hist = h.ops.iter().any(|o| matches!(o, Op::Open(..) | Op::Change(..) | Op::Close(..)));
+    let mut langs: Vec<String> = vec![h.lang.clone()];
+    for o in &h.ops {
+        if let Op::Open(_, l, _) = o {
+            if !langs.contains(l) {
+                langs.push(l.clone());
+            }
+        }
+    }
+    let mut next_ver: i64 = 0;
+    // mirror of DocumentState.language_id for the `language` oracle
+    let mut lang_state: BTreeMap<usize, String> = BTreeMap::new();
     // the text each open document was last checked with (the copy on disk the add commands re-read)
     let mut last_text: BTreeMap<usize, String> = BTreeMap::new();
     // the update_document_from_file an add command makes for the document it was given, if that document is open
@@ -906,7 +1005,144 @@ fn run_hist(cx: &mut Cx, rep: &mut Report, h: &Hist, origin: &str) {
     };
 
     for (oi, op) in h.ops.iter().enumerate() {
+        let op_eff: Op = match op {
+            Op::Lint(ui, t) if lang_hist => {
+                if opened.contains(ui) { Op::Change(*ui, t.clone()) } else { Op::Open(*ui, h.lang.clone(), t.clone()) }
+            }
+            o => o.clone(),
+        };
+        let op = &op_eff;
         match op {
+            Op::Open(..) | Op::Change(..) => {
+                let (ui, decl, text): (usize, Option<&String>, &String) = match op {
+                    Op::Open(u, l, t) => (*u, Some(l), t),
+                    Op::Change(u, t) => (*u, None, t),
+                    _ => unreachable!(),
+                };
+                if ui >= urls.len() {
+                    continue;
+                }
+                let u = &urls[ui];
+                if let Some(p) = &u.path {
+                    if let Some(par) = Path::new(p).parent() {
+                        let _ = std::fs::create_dir_all(par);
+                    }
+                    let _ = std::fs::write(p, text);
+                }
+                next_ver += 1;
+                let before = sess.published.len();
+                let ok = match decl {
+                    Some(l) => sess.notify("textDocument/didOpen", json!({"textDocument": {"uri": u.uri, "languageId": l, "version": next_ver, "text": text}})),
+                    None => sess.notify("textDocument/didChange", json!({"textDocument": {"uri": u.uri, "version": next_ver}, "contentChanges": [{"text": text}]})),
+                };
+                if !ok || sess.published.len() == before {
+                    rep.fail("stuck", "no diagnostics published for a checked document".into(), inp.clone());
+                    return;
+                }
+                let (_, pd) = sess.published.last().unwrap().clone();
+                let ds = diags_of(&pd);
+                let had_state = opened.contains(&ui);
+                opened.insert(ui);
+                last_text.insert(ui, text.clone());
+                let src: Vec<char> = text.chars().collect();
+                let reported: Vec<String> = ds
+                    .iter()
+                    .filter(|(_, m)| is_spelling_msg(m))
+                    .filter_map(|(r, _)| match (idx_of(&src, r.0, r.1), idx_of(&src, r.2, r.3)) {
+                        (Some(a), Some(b)) if a <= b => Some(src[a..b].iter().collect::<String>()),
+                        _ => None,
+                    })
+                    .collect();
+                let (alts, readings) = lang_readings(cx, rep, &langs, text, &user, dict_path(&Scope::File(ui)), &mut chars, &mut allwords);
+                // oracle `language` (Coq: C07_lang_check): the document is read in the language its state was CREATED with (the first
+                // didOpen since it was last closed / the server started); no state, or a language without parser: no diagnostics
+                let eff: Option<String> = lang_state.get(&ui).cloned().or(decl.cloned());
+                let expected: Option<(String, usize)> = match eff {
+                    Some(l) => match langs.iter().position(|x| *x == l) {
+                        Some(k) if readings[k].is_some() => Some((l, k)),
+                        _ => None,
+                    },
+                    None => None,
+                };
+                match &expected {
+                    None => {
+                        lang_state.remove(&ui);
+                        if !ds.is_empty() {
+                            rep.fail("language", format!("{} diagnostic(s) for {} although it has no document (not open, or opened in a language without parser) (op {oi})", ds.len(), h.urls[ui]), inp.clone());
+                        }
+                    }
+                    Some((l, k)) => {
+                        lang_state.insert(ui, l.clone());
+                        let (ids, toks) = readings[*k].clone().unwrap();
+                        let cur = FstDictionary::curated();
+                        for t in &reported {
+                            if !toks.contains(t) {
+                                rep.fail("language", format!("{:?} is reported in {} (op {oi}) but is no Word token of the text read as {l}, the language the document was opened with", t, h.urls[ui]), inp.clone());
+                                break;
+                            }
+                        }
+                        for t in &toks {
+                            let tc: Vec<char> = t.chars().collect();
+                            let tl = to_lower_as_written(&tc);
+                            let tls: String = tl.iter().collect();
+                            let unknown = t.chars().all(|c| c.is_alphabetic())
+                                && cur.get_word_metadata(&tc).is_none()
+                                && cur.get_word_metadata(&tl).is_none()
+                                && !add_log.iter().any(|(_, _, w)| real_id(w) == real_id(t) || real_id(w) == real_id(&tls))
+                                && !ids.iter().any(|i| real_id(i) == real_id(t) || real_id(i) == real_id(&tls));
+                            if unknown && !reported.contains(t) {
+                                rep.fail("language", format!("{:?} is in no dictionary, is a Word token of {} read as {l}, and is not reported (op {oi}): the document is not read in the language it was opened with", t, h.urls[ui]), inp.clone());
+                                break;
+                            }
+                        }
+                        rep.count("oracle:language_reading_checked");
+                    }
+                }
+                match decl {
+                    Some(l) => {
+                        case_ops.push(format!("o {} {} : {}", ui, langs.iter().position(|x| x == l).unwrap_or(0), alts));
+                        rep.count(if had_state { "lang:didOpen_of_an_open_document" } else { "lang:didOpen" });
+                        rep.count(&format!("lang:didOpen_as_{l}"));
+                    }
+                    None => {
+                        case_ops.push(format!("g {} : {}", ui, alts));
+                        rep.count(if had_state { "lang:didChange" } else { "lang:didChange_of_a_document_that_is_not_open" });
+                    }
+                }
+                for w in &reported {
+                    chars.extend(w.chars());
+                }
+                impl_ops.push(show_words(&reported));
+                n_lints += 1;
+                // oracle (accept clause): an added word in scope must not be among the reported words, in whatever language the
+                // document is read (the known classes F15 / FC07b / F20 apart)
+                let my_key = u.file_key.clone();
+                let norm = |x: &String| -> String { x.chars().map(norm_char).collect() };
+                for t in &reported {
+                    let Some(pos) = add_log.iter().position(|(_, k, w)| w == t && (k == "user" || *k == my_key)) else { continue };
+                    let (ai, target, _) = add_log[pos].clone();
+                    let later_variant = add_log.iter().skip(pos + 1).filter(|(_, k, w)| *k == target && real_id(w) == real_id(t)).last().map(|(_, _, w)| norm(w) != norm(t)).unwrap_or(false);
+                    let cross = add_log.iter().skip(pos + 1).any(|(_, k, w)| *k != target && w != t && real_id(w) == real_id(t));
+                    let tc: Vec<char> = t.chars().collect();
+                    let other_dialect = FstDictionary::curated().get_word_metadata(&tc).map(|m| !m.dialect.is_none_or(|d| d == Dialect::American)).unwrap_or(false);
+                    if cross {
+                        continue;
+                    }
+                    let class = if later_variant { "added-word-reported:case-collision" } else if other_dialect { "added-word-reported:dialect" } else { "added-word-reported" };
+                    rep.fail(class, format!("{:?} was added (op {ai}) and is reported as misspelt in a later check (op {oi}) of {}", t, h.urls[ui]), inp.clone());
+                }
+            }
+            Op::Close(ui) => {
+                if *ui >= urls.len() {
+                    continue;
+                }
+                sess.did_close(&urls[*ui].uri);
+                opened.remove(ui);
+                lang_state.remove(ui);
+                case_ops.push(format!("x {ui}"));
+                impl_ops.push("x".into());
+                rep.count("lang:didClose");
+            }
             Op::Par(adds) => {
                 // adds to the same dictionary are serialised by the server's lock in an order the client does not
                 // know: the outcome is order-independent unless two of them are different spellings of one id (F15:
@@ -961,7 +1197,15 @@ fn run_hist(cx: &mut Cx, rep: &mut Report, h: &Hist, origin: &str) {
                 }
                 for (sc, _, _) in &todo {
                     let ui = match sc { Scope::User => 0usize, Scope::File(i) => *i };
-                    if let Some(u) = hidden_update(ui, &opened, &last_text, &mut chars) {
+                    if lang_hist {
+                        if opened.contains(&ui) && urls[ui].path.is_some() {
+                            if let Some(text) = last_text.get(&ui).cloned() {
+                                let alts = lang_alts(cx, rep, &langs, &text, &user, dict_path(&Scope::File(ui)), &mut chars, &mut allwords);
+                                case_ops.push(format!("h {} : {}", ui, alts));
+                                impl_ops.push("u".into());
+                            }
+                        }
+                    } else if let Some(u) = hidden_update(ui, &opened, &last_text, &mut chars) {
                         case_ops.push(u);
                         impl_ops.push("u".into());
                     }
@@ -996,7 +1240,16 @@ fn run_hist(cx: &mut Cx, rep: &mut Report, h: &Hist, origin: &str) {
                 } else {
                     rep.count("hist:add_to_file_dict_of_untitled_document(dropped by the server)");
                 }
-                if let Some(u) = hidden_update(ui, &opened, &last_text, &mut chars) {
+                if lang_hist {
+                    if opened.contains(&ui) && urls[ui].path.is_some() {
+                        if let Some(text) = last_text.get(&ui).cloned() {
+                            let alts = lang_alts(cx, rep, &langs, &text, &user, dict_path(&Scope::File(ui)), &mut chars, &mut allwords);
+                            case_ops.push(format!("h {} : {}", ui, alts));
+                            impl_ops.push("u".into());
+                            rep.count("lang:add_re-reads_an_open_document(update_document_from_file)");
+                        }
+                    }
+                } else if let Some(u) = hidden_update(ui, &opened, &last_text, &mut chars) {
                     case_ops.push(u);
                     impl_ops.push("u".into());
                     rep.count("hist:add_re-reads_an_open_document(update_document_from_file)");
@@ -1049,6 +1302,7 @@ fn run_hist(cx: &mut Cx, rep: &mut Report, h: &Hist, origin: &str) {
                 drop(sess);
                 sess = Session::new(st.clone());
                 opened.clear();
+                lang_state.clear();
                 case_ops.push("r".into());
                 impl_ops.push("r".into());
             }
@@ -1127,7 +1381,10 @@ fn run_hist(cx: &mut Cx, rep: &mut Report, h: &Hist, origin: &str) {
                             let norm = |x: &String| -> String { x.chars().map(norm_char).collect() };
                             // exactly the class C07_add_sequential excludes: a later add to the same dictionary with the same id whose
                             // spelling differs by more than the kind of apostrophe
-                            let later_variant = add_log.iter().any(|(i, k, w)| i > ai && *k == target_of_add && norm(w) != norm(t) && real_id(w) == real_id(t));
+                            // (Coq: C07_f15_accept_class — reported iff the LAST later add with its id is another spelling, and no child
+                            // has the lower-cased form, and no other child has the word)
+                            let pos_of_add = add_log.iter().position(|(i, k, w)| i == ai && w == t && *k == target_of_add).unwrap_or(0);
+                            let later_variant = add_log.iter().skip(pos_of_add + 1).filter(|(_, k, w)| *k == target_of_add && real_id(w) == real_id(t)).last().map(|(_, _, w)| norm(w) != norm(t)).unwrap_or(false);
                             // ... or an add for ANOTHER file whose dictionary is the same file on disk (F20)
                             let phys = |k: &String| -> Option<PathBuf> {
                                 if k == "user" {
@@ -1201,19 +1458,54 @@ fn run_hist(cx: &mut Cx, rep: &mut Report, h: &Hist, origin: &str) {
                     let gone: Vec<&Diag> = a.iter().filter(|x| !b.contains(x)).collect();
                     let new: Vec<&Diag> = b.iter().filter(|x| !a.contains(x)).collect();
                     // does every changed lint sit on a token that is (a case variant of) an added word in scope?
+                    // (Coq: C07_view_class — what the rule bodies see of a token changes only for case variants of an added word in scope
+                    // that the CURATED dictionary has no entry for: the first child wins)
+                    let cur = FstDictionary::curated();
+                    let view_may_change = |tw: &String| -> bool {
+                        let tc: Vec<char> = tw.chars().collect();
+                        cur.get_word_metadata(&tc).is_none() && in_scope.iter().any(|(_, w)| real_id(w) == real_id(tw))
+                    };
                     let on_added = gone.iter().chain(new.iter()).all(|(r, _)| {
                         toks.ranges.iter().zip(&toks.words).any(|(tr, tw)| {
-                            tr.0 == r.0 && tr.2 == r.2 && tr.0 == tr.2 && r.1 < tr.3 && tr.1 < r.3.max(r.1 + 1) && in_scope.iter().any(|(_, w)| real_id(w) == real_id(tw))
+                            tr.0 == r.0 && tr.2 == r.2 && tr.0 == tr.2 && r.1 < tr.3 && tr.1 < r.3.max(r.1 + 1) && view_may_change(tw)
                         })
                     });
+                    // (Coq: C07_fc07d_disappears / C07_fc07d_appears — a capitalisation lint on the added word disappears iff the first of
+                    // user / file spells the id with an inner upper-case letter and the identifiers did not silence it already; it
+                    // appears iff an identifier with an inner upper-case letter silenced it and user / file spell it without one)
+                    const CAP_MSG: &str = "This sentence does not start with a capital letter";
+                    let load_now = |p: Option<PathBuf>| -> MutableDictionary { p.and_then(|p| cx.rt.block_on(load_dict(&p)).ok()).unwrap_or_else(MutableDictionary::new) };
+                    let now_uf = {
+                        let mut m = MergedDictionary::new();
+                        m.add_dictionary(Arc::new(load_now(Some(PathBuf::from(&user)))));
+                        m.add_dictionary(Arc::new(load_now(dict_path(&Scope::File(*ui)))));
+                        m
+                    };
+                    let ident_d = mutable_of(&ids);
+                    let cap_explained = |r: &(u64, u64, u64, u64), appeared: bool| -> bool {
+                        let Some(tw) = toks.ranges.iter().zip(&toks.words).find(|(tr, _)| tr.0 == r.0 && tr.1 == r.1).map(|(_, w)| w) else { return false };
+                        let tc: Vec<char> = tw.chars().collect();
+                        if cur.get_word_metadata(&tc).is_some() {
+                            return false;
+                        }
+                        let uf = now_uf.get_correct_capitalization_of(&tc).map(|c| inner_upper(c));
+                        let idv = ident_d.get_correct_capitalization_of(&tc).map(|c| inner_upper(c)).unwrap_or(false);
+                        match uf {
+                            None => false,
+                            Some(iu) => if appeared { !iu && idv } else { iu && !idv },
+                        }
+                    };
+                    let cap_unexplained = gone.iter().any(|(r, m)| m == CAP_MSG && !cap_explained(r, false)) || new.iter().any(|(r, m)| m == CAP_MSG && !cap_explained(r, true));
                     // ... or within 40 columns of such a token on the same line (token predicates such as
                     // is_not_plural_nominal answer differently for a word without metadata and a word with default metadata)
                     let near_added = gone.iter().chain(new.iter()).all(|(r, _)| {
                         toks.ranges.iter().zip(&toks.words).any(|(tr, tw)| {
-                            tr.0 == r.0 && tr.2 == r.2 && tr.0 == tr.2 && r.1 < tr.3 + 40 && tr.1 < r.3 + 40 && in_scope.iter().any(|(_, w)| real_id(w) == real_id(tw))
+                            tr.0 == r.0 && tr.2 == r.2 && tr.0 == tr.2 && r.1 < tr.3 + 40 && tr.1 < r.3 + 40 && view_may_change(tw)
                         })
                     });
-                    let class = if on_added {
+                    let class = if cap_unexplained {
+                        "other-lints-changed:capitalisation-unexplained"
+                    } else if on_added {
                         "other-lints-changed:on-added-word"
                     } else if near_added {
                         "other-lints-changed:near-added-word"
@@ -1238,6 +1530,7 @@ fn run_hist(cx: &mut Cx, rep: &mut Report, h: &Hist, origin: &str) {
                 let killed = crash_child(&user, &fd, &stats, scope_s, &urls[ui].uri, w, syscall, *when);
                 sess = Session::new(st.clone());
                 opened.clear();
+                lang_state.clear();
                 let Some(killed) = killed else {
                     rep.monitor("strace_unavailable", 1);
                     continue;
@@ -1588,6 +1881,104 @@ fn run_merge(cx: &mut Cx, rep: &mut Report, a: &[String], b: &[String], origin: 
 // ------------------------------------------------------------------------------------------------
 //  generators
 // ------------------------------------------------------------------------------------------------
+
+// ------------------------------------------------------------------------------------------------
+//  V / K: the merged dictionary as the rule bodies and SpellCheck see it (Coq: Model/C07Class.v)
+// ------------------------------------------------------------------------------------------------
+/// SentenceCapitalization's exemption test on a canonical spelling (sentence_capitalization.rs): an upper-case letter after
+/// the first character and before a separator
+fn inner_upper(sp: &[char]) -> bool {
+    sp.iter().skip(1).take_while(|&c| !c.is_whitespace() && *c != '-' && *c != '\'').any(|&c| c.is_uppercase())
+}
+/// V: [curated; user; file; identifiers] built from word lists: the entry the FIRST child with the token's id holds (canonical
+/// spelling, dialect ok) and the exact test over ALL children, real MergedDictionary vs C07Class.x_view / x_exact
+fn run_view(cx: &mut Cx, rep: &mut Report, us: &[String], fs: &[String], ids: &[String], tok: &str, origin: &str) {
+    rep.eval();
+    let m = merged_with(vec![mutable_of(us), mutable_of(fs), mutable_of(ids)]);
+    let t: Vec<char> = tok.chars().collect();
+    let canon: Option<String> = m.get_correct_capitalization_of(&t).map(|c| c.iter().collect());
+    let meta = m.get_word_metadata(&t);
+    let dok = meta.map(|md| md.dialect.is_none_or(|d| d == Dialect::American)).unwrap_or(true);
+    let exact = m.contains_exact_word(&t);
+    let inp = json!({"kind": "view", "user": us, "file": fs, "ids": ids, "tok": tok, "origin": origin});
+    if canon.is_some() != meta.is_some() {
+        rep.fail("view", format!("get_correct_capitalization_of and get_word_metadata disagree on whether {:?} is known", tok), inp.clone());
+    }
+    let mut chars: BTreeSet<char> = tok.chars().collect();
+    let mut all: BTreeSet<String> = BTreeSet::new();
+    all.insert(tok.to_string());
+    for w in us.iter().chain(fs).chain(ids) {
+        chars.extend(w.chars());
+        all.insert(w.clone());
+        cx.note_id(w);
+    }
+    cx.note_id(tok);
+    if let Some(c) = &canon {
+        chars.extend(c.chars());
+    }
+    let case = format!("V {} | {} | {} | {} | {} | {}", ctable(&chars), curated_field(&all), words_field(us), words_field(fs), words_field(ids), wcps(tok));
+    let line = match &canon {
+        Some(c) => format!("S {} : {} {}", wcps(c), dok as u8, exact as u8),
+        None => format!("N {}", exact as u8),
+    };
+    rep.case(&case, &line);
+    rep.nontrivial(&format!("{:?}|{:?}|{:?}|{tok}", us, fs, ids));
+    // which child answers (first child wins)?
+    let cur = FstDictionary::curated();
+    let who = if cur.get_word_metadata(&t).is_some() {
+        "curated"
+    } else if us.iter().any(|w| real_id(w) == real_id(tok)) {
+        "user"
+    } else if fs.iter().any(|w| real_id(w) == real_id(tok)) {
+        "file"
+    } else if ids.iter().any(|w| real_id(w) == real_id(tok)) {
+        "identifiers"
+    } else {
+        "nobody"
+    };
+    rep.count(&format!("view:answered_by_{who}"));
+    // oracle (C07_view_class on the implementation): the entry differs from harper-core alone ([curated; identifiers]) only if
+    // curated has no entry and user / file hold a word with the token's id, and then the spelling is that word
+    let base = merged_with(vec![mutable_of(ids)]);
+    let base_canon: Option<String> = base.get_correct_capitalization_of(&t).map(|c| c.iter().collect());
+    if base_canon != canon {
+        let from_uf = us.iter().chain(fs).any(|w| real_id(w) == real_id(tok) && Some(w) == canon.as_ref());
+        if who == "curated" || !from_uf {
+            rep.fail("view", format!("canonical spelling of {:?} changed from {:?} to {:?} although curated answers / no user or file word explains it", tok, base_canon, canon), inp);
+        } else {
+            rep.count("view:changed_by_user_or_file_word");
+        }
+    }
+}
+/// K: one dictionary after the adds w :: post: does its exact test still find w?  real MutableDictionary vs C07Class.x_f15_keeps
+fn run_keeps(cx: &mut Cx, rep: &mut Report, w: &str, post: &[String], origin: &str) {
+    rep.eval();
+    let mut all = vec![w.to_string()];
+    all.extend(post.iter().cloned());
+    let d = mutable_of(&all);
+    let wc: Vec<char> = w.chars().collect();
+    let keeps = d.contains_exact_word(&wc);
+    let mut chars: BTreeSet<char> = BTreeSet::new();
+    for x in &all {
+        chars.extend(x.chars());
+        cx.note_id(x);
+    }
+    rep.case(&format!("K {} | {} | {}", ctable(&chars), wcps(w), words_field(post)), if keeps { "1" } else { "0" });
+    rep.nontrivial(&format!("{w}|{:?}", post));
+    let norm = |x: &str| -> String { x.chars().map(norm_char).collect() };
+    let last = post.iter().rev().find(|x| real_id(x) == real_id(w));
+    rep.count(match last {
+        None => "keeps:no_later_word_with_the_id",
+        Some(x) if norm(x) == norm(w) => "keeps:last_later_word_is_the_same_spelling",
+        Some(_) => "keeps:last_later_word_is_another_spelling(F15)",
+    });
+    // oracle: C07_f15_accept_class's first clause on the implementation
+    let expect = last.map(|x| norm(x) == norm(w)).unwrap_or(true);
+    if keeps != expect {
+        rep.fail("keeps", format!("exact test of {:?} after the adds {:?}: {keeps}, but the last later word with its id is {:?}", w, post, last), json!({"kind": "keeps", "word": w, "post": post, "origin": origin}));
+    }
+}
+
 const ONSETS: &[&str] = &["z", "bl", "qu", "vl", "kr", "sn", "gl", "thr", "p", "m", "dr", "sk", "fw", "j", "x"];
 const NUCLEI: &[&str] = &["o", "a", "u", "i", "e", "oo", "ai", "y"];
 const CODAS: &[&str] = &["rg", "rf", "x", "mp", "ld", "nk", "zz", "b", "sh", "pt", "le", "ly"];
@@ -1820,6 +2211,56 @@ fn gen_hist(r: &mut Rng, crash: bool, malformed: bool) -> Hist {
     Hist { lang, urls, ops }
 }
 
+
+/// histories in which the language of a document changes: didOpen of an open document with another language id, didChange
+/// of a document that is not open, languages without a parser, didClose (Coq: C07Lang)
+const LANG_POOL: &[&str] = &["rust", "python", "c", "plaintext", "markdown", "klingon"];
+fn gen_lang_hist(r: &mut Rng) -> Hist {
+    let mut pool = gen_pool(r);
+    let urls: Vec<String> = if r.chance(1, 2) { vec!["f:src/m.rs".into()] } else { vec!["f:src/m.rs".into(), "f:a/b.txt".into()] };
+    let lang = LANG_POOL[r.below(5)].to_string();
+    let mut idents: Vec<String> = vec![];
+    for _ in 0..r.range(0, 3) {
+        let cand = match r.below(4) {
+            0 | 1 => format!("{}_{}", made_up(r), made_up(r)),
+            2 => made_up(r),
+            _ => capitalize(&pool[r.below(pool.len())]),
+        };
+        let ok = !cand.is_empty() && cand.chars().all(|c| c.is_ascii_alphanumeric() || c == '_') && cand.chars().next().map(|c| c.is_ascii_alphabetic()).unwrap_or(false);
+        if ok && !idents.iter().any(|x| real_id(x) == real_id(&cand)) {
+            idents.push(cand);
+        }
+    }
+    let text = |r: &mut Rng, pool: &Vec<String>| -> String {
+        let mut prose = fill(r.s(TEMPLATES), pool, r);
+        if !idents.is_empty() && r.chance(1, 2) {
+            prose.push_str(&format!("\nIt calls {} twice.", idents[r.below(idents.len())]));
+        }
+        if r.chance(2, 3) { to_source(r.s(SRC_LANGS), &prose, &idents) } else { prose }
+    };
+    let mut ops = vec![];
+    for _ in 0..r.range(6, 12) {
+        let ui = r.below(urls.len());
+        match r.below(12) {
+            0..=3 => ops.push(Op::Open(ui, r.s(LANG_POOL).to_string(), text(r, &pool))),
+            4..=5 => ops.push(Op::Change(ui, text(r, &pool))),
+            6..=8 => {
+                let w = if r.chance(1, 4) { let w = made_up(r); pool.push(w.clone()); w } else { pool[r.below(pool.len())].clone() };
+                ops.push(Op::Add(if r.chance(1, 2) { Scope::User } else { Scope::File(ui) }, w));
+            }
+            9 => ops.push(Op::Close(ui)),
+            10 => ops.push(if r.chance(1, 2) { Op::Restart } else { Op::Lint(ui, text(r, &pool)) }),
+            _ => ops.push(Op::Lint(ui, text(r, &pool))),
+        }
+    }
+    let t = pool.join(" ");
+    for ui in 0..urls.len() {
+        ops.push(Op::Open(ui, r.s(LANG_POOL).to_string(), to_source("rust", &t, &idents)));
+        ops.push(Op::Change(ui, t.clone()));
+    }
+    Hist { lang, urls, ops }
+}
+
 /// metamorphic histories: a rule-rich paragraph in which some words are replaced by made-up ones; checked
 /// before the words are added, after, and after a restart ("all other lints are unchanged")
 fn gen_meta_hist(r: &mut Rng) -> Hist {
@@ -2045,6 +2486,14 @@ fn run_input(cx: &mut Cx, rep: &mut Report, v: &Value, origin: &str) {
             let get = |k: &str| -> Vec<String> { v[k].as_array().map(|a| a.iter().filter_map(|x| x.as_str().map(|s| s.to_string())).collect()).unwrap_or_default() };
             run_merge(cx, rep, &get("a"), &get("b"), origin)
         }
+        "view" => {
+            let get = |k: &str| -> Vec<String> { v[k].as_array().map(|a| a.iter().filter_map(|x| x.as_str().map(|s| s.to_string())).collect()).unwrap_or_default() };
+            run_view(cx, rep, &get("user"), &get("file"), &get("ids"), v["tok"].as_str().unwrap_or(""), origin)
+        }
+        "keeps" => {
+            let post: Vec<String> = v["post"].as_array().map(|a| a.iter().filter_map(|x| x.as_str().map(|s| s.to_string())).collect()).unwrap_or_default();
+            run_keeps(cx, rep, v["word"].as_str().unwrap_or(""), &post, origin)
+        }
         "wasm" => {
             if let Some(ops) = wasm_from(v) {
                 run_wasm(cx, rep, &ops, origin)
@@ -2104,6 +2553,10 @@ fn main() {
         for i in 0..args.scale(12, 80) {
             let h = gen_hist(&mut r, true, i % 7 == 6);
             run_hist(&mut cx, &mut rep, &h, "gen-crash");
+        }
+        for _ in 0..args.scale(40, 400) {
+            let h = gen_lang_hist(&mut r);
+            run_hist(&mut cx, &mut rep, &h, "gen-lang");
         }
         // ---- finite sweeps ----
         // every file content up to a length over {a, A, LF, CR}
@@ -2224,6 +2677,19 @@ fn main() {
                 a.reverse();
             }
             run_merge(&mut cx, &mut rep, &a, &b, "gen-merge");
+        }
+        // V / K: the merged dictionary seen by the rule bodies; one dictionary after a run of adds
+        for _ in 0..args.scale(400, 4000) {
+            let pool = gen_pool(&mut r);
+            let pick = |r: &mut Rng, n: usize| -> Vec<String> { (0..r.range(0, n)).map(|_| pool[r.below(pool.len())].clone()).collect() };
+            let us = pick(&mut r, 4);
+            let fs = pick(&mut r, 3);
+            let ids = if r.chance(1, 2) { pick(&mut r, 3) } else { vec![] };
+            let tok = if r.chance(1, 6) { CURATED_WORDS[r.below(CURATED_WORDS.len())].to_string() } else { pool[r.below(pool.len())].clone() };
+            run_view(&mut cx, &mut rep, &us, &fs, &ids, &tok, "gen-view");
+            let w = pool[r.below(pool.len())].clone();
+            let post = pick(&mut r, 5);
+            run_keeps(&mut cx, &mut rep, &w, &post, "gen-keeps");
         }
     }
     // ---- hypothesis monitors ----
